@@ -207,6 +207,11 @@ type c13Outcome struct {
 	st    *c13State       // state at the return (evaluated calls of the return statement included)
 	what  string
 	panic bool
+	// split outcomes (views with splitBool): the root returns a boolean expression, read as
+	// `if E { return true }; return false` - one outcome per disjoint alternative of E / !E
+	split bool
+	truth bool
+	atoms []string // the atoms of the alternative, in evaluation order
 }
 
 type c13Node struct {
@@ -241,6 +246,10 @@ type c13View struct {
 	// track: additional locals whose value is followed in the state (error and boolean locals, and locals
 	// defined by a spliced call, always are)
 	track func(fr *c13Frame, v *types.Var) bool
+	// splitBool: a boolean result of the root that is a condition (`return a && b`, `return ok`) ends in
+	// one outcome per alternative of the condition, behind a branch edge carrying the alternative's atoms -
+	// exactly the outcomes of the if/return spelling of the same function
+	splitBool bool
 
 	nodes    map[string]*c13Node
 	order    []*c13Node
@@ -505,6 +514,10 @@ func (vw *c13View) doReturn(n *c13Node, r *ast.ReturnStmt, st *c13State) {
 		what = v.Name()
 	}
 	if fr.isRoot() {
+		if vw.splitBool && len(r.Results) == 1 && val.kind == c13VCond {
+			vw.splitReturn(n, r, st)
+			return
+		}
 		n.outcome = &c13Outcome{fr: fr, stmt: r, val: val, st: st, what: what}
 		return
 	}
@@ -516,6 +529,30 @@ func (vw *c13View) doReturn(n *c13Node, r *ast.ReturnStmt, st *c13State) {
 	}
 	st2 := st.dropWithin(body, true).withCall(fr.site, val)
 	vw.link(n, vw.node(fr.parent, fr.retB, fr.retI, st2), &c13VEdge{kind: c13EdgeRet})
+}
+
+// splitReturn ends the root in one outcome per alternative of the returned condition: `return E` is
+// `if E { return true }; return false`, with && and || split by their short-circuit meaning (so the atoms
+// of an alternative are listed in evaluation order).
+func (vw *c13View) splitReturn(n *c13Node, r *ast.ReturnStmt, st *c13State) {
+	fr := n.fr
+	e := r.Results[0]
+	for s, truth := range []bool{true, false} {
+		k, word := c13VFalse, "false"
+		if truth {
+			k, word = c13VTrue, "true"
+		}
+		for _, a := range vw.alts(fr, []c13Alt{{st: st}}, e, truth) {
+			t := &c13Node{id: len(vw.order), fr: fr, b: n.b, i: len(n.b.Nodes), st: a.st}
+			t.outcome = &c13Outcome{fr: fr, stmt: r, val: c13Val{kind: k}, st: a.st, what: exprStr(e) + " (" + word + ")", split: true, truth: truth, atoms: a.atoms}
+			vw.order = append(vw.order, t)
+			kind := c13EdgeBranch
+			if len(a.atoms) == 0 {
+				kind = c13EdgeSeq
+			}
+			vw.link(n, t, &c13VEdge{kind: kind, cond: e, succ: s, atoms: a.atoms, loops: a.loops})
+		}
+	}
 }
 
 // isTracked: the value of the local is followed in the state. Only locals declared in the body whose
